@@ -3,11 +3,14 @@
    chosen freely at every read) yields the same sequence of packets (length and decode), the same final reader and the
    same unread rest: the big-step relation RRun is a function of (reader, stream).  Stated for the executable loop.
    Writes: the pieces the engine writes from its recorded offset concatenate to the packet.
+   The machine: in every reachable world the reader holds a prefix of the inbound stream no longer than the packet
+   being assembled, so every packet the session handles is the next frame of the stream and handling it consumes
+   exactly that frame - inbound framing is a function of the byte stream alone (second half of the file).
    Whole executions (results, deliveries, outbound stream of the same program under two fragmentations) are compared
    on the implementation and on the model by the twin runs of the check. *)
 From Coq Require Import List NArith.
-From Minimq Require Import Bytes Varint Utf8 Props Ser De Reader.
-From Minimq Require Import Chunking.
+From Minimq Require Import Bytes Varint Utf8 Props Ser De Reader Arena Core Machine Run.
+From Minimq Require Import Chunking ReaderInv Cancel Framing Drain.
 Import ListNotations.
 Open Scope N_scope.
 
@@ -31,8 +34,49 @@ Proof. exact pieces_concat. Qed.
 Theorem C15_written_pieces_are_the_packet : forall ns bs, sumN ns = lenN bs -> pieces bs 0 ns = bs.
 Proof. exact pieces_whole. Qed.
 
+(* ---------------- the machine: inbound framing is a function of the byte stream ---------------- *)
+(* RInv: the packet reader never holds more than the packet it is assembling, and its recorded length is what the
+   header bytes it holds say; true in EVERY reachable world - any program, any script of read sizes (down to one byte,
+   splits inside the fixed header), read timing, faults, dropped futures, reconnects *)
+Theorem C15_reader_invariant_reachable : forall c, RInv (rd (run_case c)).
+Proof. exact reachable_RInv. Qed.
+
+(* so the packet handed to the session is exactly the first pl bytes of the inbound stream (what the reader holds ++
+   what is still queued on the transport), pl being announced by the stream's own header ... *)
+Theorem C15_handled_packet_is_next_frame : forall w, RInv (rd w) -> packet_available (rd w) = true ->
+  exists pl, rplen (rd w) = Some pl /\ pl <= lenN (inbound_stream w) /\
+    rdata (rd w) = takeN pl (inbound_stream w) /\
+    take_packet (rd w) = Some (reader_reset (rd w), pl, from_buffer (takeN pl (inbound_stream w))).
+Proof. exact handled_packet_is_next_frame. Qed.
+
+Theorem C15_frame_length_from_stream : forall w pl, RInv (rd w) -> rplen (rd w) = Some pl ->
+  probe_len (takeN 4 (dropN 1 (inbound_stream w))) = Some pl.
+Proof. exact frame_length_from_stream. Qed.
+
+(* ... handling it removes exactly those bytes from the stream (nothing skipped, nothing read twice) ... *)
+Theorem C15_process_consumes_frame : forall w pl, RInv (rd w) -> packet_available (rd w) = true -> rplen (rd w) = Some pl ->
+  inbound_stream (fst (process_received w)) = dropN pl (inbound_stream w).
+Proof. exact process_consumes_frame. Qed.
+
+(* ... and reading, however fragmented, timed, failed or dropped, never changes the stream *)
+Theorem C15_reads_conserve_stream : forall fuel dl w,
+  inbound_stream (fst (fill_packet_reader fuel dl w)) = inbound_stream w.
+Proof. exact fill_conserves_inbound. Qed.
+
+(* the same QoS 2 PUBLISH read whole and read one byte at a time: same pending set, same bytes written, same reader *)
+Theorem C15_framing_example :
+  s_srv (w_sess ex_q2_frag) = s_srv (w_sess ex_q2) /\ s_srv (w_sess ex_q2) = [7] /\
+  w_wire ex_q2_frag = w_wire ex_q2 /\ w_live ex_q2_frag = true /\ rd ex_q2_frag = rd ex_q2.
+Proof. exact framing_example. Qed.
+
 Print Assumptions C15_reader_relation_is_a_function.
 Print Assumptions C15_reader_chunking_independent.
 Print Assumptions C15_loop_refines_relation.
 Print Assumptions C15_written_pieces_concatenate.
 Print Assumptions C15_written_pieces_are_the_packet.
+Print Assumptions C15_reader_invariant_reachable.
+Print Assumptions C15_handled_packet_is_next_frame.
+Print Assumptions C15_frame_length_from_stream.
+Print Assumptions C15_process_consumes_frame.
+Print Assumptions C15_reads_conserve_stream.
+Print Assumptions C15_framing_example.
